@@ -416,75 +416,69 @@ Definition spec_is_template (d : decl) : option bytes :=
   | _, _, _, _, _, _ => None
   end.
 
+Section OAll.
+  Context {A B : Type} (f : A -> option B).
+  Fixpoint oall (l : list A) : option (list B) :=
+    match l with
+    | [] => Some []
+    | a :: r => match f a, oall r with
+                | Some b, Some r' => Some (b :: r')
+                | _, _ => None
+                end
+    end.
+End OAll.
+
 Section Expand.
   Variable ds : list (bytes * decl).
+
+  Section Go.
+    (* substitution inside the body of a referenced template *)
+    Variable jump : decl -> option decl.
+
+    Fixpoint xgo (d : decl) {struct d} : option decl :=
+      let 'Decl c e x xd fn args ig pa tm ob ar ty nt kp := d in
+      if (is_some x && is_some xd)%bool then None else
+      match (match xd with
+             | Some q => match xgo q with Some q' => Some (Some q') | None => None end
+             | None => Some None
+             end) with
+      | None => None
+      | Some xd' =>
+          match spec_is_template d with
+          | Some name =>
+              match lookup name ds with
+              | None => None
+              | Some body =>
+                  if (d_isx body && d_isx d)%bool then None
+                  else jump (if d_isx d then with_xpath_of d body else body)
+              end
+          | None =>
+              let args' := oall xgo args in
+              let ob' := match ob with
+                         | None => Some None
+                         | Some l =>
+                             match oall (fun ka => let '(k, a) := ka in
+                                                   match xgo a with Some a' => Some (k, a') | None => None end) l with
+                             | Some l' => Some (Some l')
+                             | None => None
+                             end
+                         end in
+              let ar' := match ar with
+                         | None => Some None
+                         | Some l => match oall xgo l with Some l' => Some (Some l') | None => None end
+                         end in
+              match args', ob', ar' with
+              | Some a, Some o, Some r => Some (Decl c e x xd' fn a ig pa None o r ty nt kp)
+              | _, _, _ => None
+              end
+          end
+      end.
+  End Go.
 
   Fixpoint expand (fuel : nat) : decl -> option decl :=
     match fuel with
     | O => fun _ => None
-    | S f =>
-        fix go (d : decl) {struct d} : option decl :=
-          let 'Decl c e x xd fn args ig pa tm ob ar ty nt kp := d in
-          if (is_some x && is_some xd)%bool then None else
-          match (match xd with
-                 | Some q => match go q with Some q' => Some (Some q') | None => None end
-                 | None => Some None
-                 end) with
-          | None => None
-          | Some xd' =>
-              match spec_is_template d with
-              | Some name =>
-                  match lookup name ds with
-                  | None => None
-                  | Some body =>
-                      if (d_isx body && d_isx d)%bool then None
-                      else expand f (if d_isx d then with_xpath_of d body else body)
-                  end
-              | None =>
-                  let args' := (fix all (l : list decl) : option (list decl) :=
-                                  match l with
-                                  | [] => Some []
-                                  | a :: r => match go a, all r with
-                                              | Some a', Some r' => Some (a' :: r')
-                                              | _, _ => None
-                                              end
-                                  end) args in
-                  let ob' := match ob with
-                             | None => Some None
-                             | Some l =>
-                                 match (fix all (l : list (bytes * decl)) : option (list (bytes * decl)) :=
-                                          match l with
-                                          | [] => Some []
-                                          | (k, a) :: r => match go a, all r with
-                                                           | Some a', Some r' => Some ((k, a') :: r')
-                                                           | _, _ => None
-                                                           end
-                                          end) l with
-                                 | Some l' => Some (Some l')
-                                 | None => None
-                                 end
-                             end in
-                  let ar' := match ar with
-                             | None => Some None
-                             | Some l =>
-                                 match (fix all (l : list decl) : option (list decl) :=
-                                          match l with
-                                          | [] => Some []
-                                          | a :: r => match go a, all r with
-                                                      | Some a', Some r' => Some (a' :: r')
-                                                      | _, _ => None
-                                                      end
-                                          end) l with
-                                 | Some l' => Some (Some l')
-                                 | None => None
-                                 end
-                             end in
-                  match args', ob', ar' with
-                  | Some a, Some o, Some r => Some (Decl c e x xd' fn a ig pa None o r ty nt kp)
-                  | _, _, _ => None
-                  end
-              end
-          end
+    | S f => xgo (expand f)
     end.
 
   Definition expand_final : option decl :=
